@@ -120,13 +120,22 @@ func Run(ctx *vrun.Ctx, prop string) error {
 			return err
 		}
 	}
-	if os.Getenv("VERIF_ONLY_UTXO") != "" {
-		return nil
+	if prop == "C02" {
+		pat := "TestFullBlocks|TestInvalidateBlock|TestReconsiderBlock|TestChainTips|TestProcessBlockHeader|TestHaveBlock|TestNotifications"
+		if ctx.Thorough {
+			pat = ""
+		}
+		if err := RunRepoTraces(ctx, pat); err != nil {
+			return err
+		}
 	}
 	if prop == "C01" {
 		if err := CheckCatalogue(ctx); err != nil {
 			return err
 		}
+	}
+	if os.Getenv("VERIF_SKIP_MODELS") != "" { // development aid: only the auxiliary specs of the property
+		return nil
 	}
 	for _, m := range models {
 		if err := RunModel(ctx, prop, m, 25*time.Minute); err != nil {
